@@ -252,6 +252,9 @@ const smtPrelude = `(set-option :produce-models true)
 (declare-fun strsub (Str Int Int) Str)
 (declare-fun str_of_bytes ((Array Int Int) Int Int) Str)
 (declare-fun root (Ptr) Int)
+(assert (forall ((n Int)) (! (= (root (Base n)) n) :pattern ((Base n)))))
+(assert (forall ((p Ptr) (k Int)) (! (= (root (Fld p k)) (root p)) :pattern ((Fld p k)))))
+(assert (forall ((p Ptr) (i Int)) (! (= (root (Elem p i)) (root p)) :pattern ((Elem p i)))))
 (declare-fun idx (Int Int) Int)
 (assert (forall ((o Int) (i Int)) (! (= (idx o i) (+ o i)) :pattern ((idx o i)))))
 (define-fun addw ((a Int) (b Int) (lo Int) (hi Int)) Int (let ((s (+ a b))) (ite (>= s hi) (- s (- hi lo)) (ite (< s lo) (+ s (- hi lo)) s))))
